@@ -7,6 +7,8 @@
 //	                              line with Go's Quote result for the five variants (code leg) and the verdicts
 //	                              of the search: parse shape + expand.Literal (all variants), printf in real
 //	                              bash (LangBash) and dash (LangPOSIX), `type -t` keyword oracle (bash)
+//	unq -seed N -n N              arbitrary quoted texts: what syntax.Parser+expand.Literal (five variants), bash and dash
+//	                              make of them (tie of the model's unquote to the code and the shells)
 //	one -in FILE                  same for the hex strings listed in FILE (one per line): witnesses / replay
 package main
 
@@ -363,6 +365,179 @@ func observeAll(strs []string) {
 		"shell_broken": broken + broken2}})
 }
 
+// ---- unquote leg: arbitrary quoted texts, what the Go parser+expander and the real shells make of them
+
+var unqParts = []string{"a", "b", "f", "0", "1", "7", "9", "x", "u", "U", "e", "E", "n", "t", "c", "?", "\\", "\\", "'", "\"", "$", "`",
+	" ", "\n", "é", "\xff", "\xc3", "!", "-", "}", "]", "%", "^", "+", ",", ".", "/", ":", "@", "#", "~", "=", "{", "*", "\\x", "\\u", "\\U", "\\0",
+	"\\x4", "\\x41", "\\u00e9", "\\U0001f600", "\\101", "\\777", "\\'", "\\\"", "\\$", "\\`", "\\\\", "\\\n", "$'", "''", "'$'"}
+
+func genQuoted(r *rand.Rand) string {
+	if r.IntN(3) == 0 {
+		// a Quote output, possibly mutated
+		s := genString(r)
+		q, err := syntax.Quote(strings.ReplaceAll(s, "\x00", ""), langs[r.IntN(len(langs))])
+		if err == nil {
+			b := []byte(q)
+			for k := r.IntN(3); k > 0 && len(b) > 0; k-- {
+				i := r.IntN(len(b))
+				switch r.IntN(3) {
+				case 0:
+					b = append(b[:i], b[i+1:]...)
+				case 1:
+					b = append(b[:i], append([]byte(hx.Pick(r, unqParts)), b[i:]...)...)
+				default:
+					p := hx.Pick(r, unqParts)
+					b[i] = p[0]
+				}
+			}
+			return string(b)
+		}
+	}
+	var sb strings.Builder
+	for n := 1 + r.IntN(3); n > 0; n-- {
+		body := func() {
+			for m := r.IntN(6); m > 0; m-- {
+				sb.WriteString(hx.Pick(r, unqParts))
+			}
+		}
+		switch r.IntN(5) {
+		case 0:
+			for m := 1 + r.IntN(3); m > 0; m-- {
+				sb.WriteString(hx.Pick(r, []string{"a", "b", "0", "é", "!", "-", "}", "]", "%", "^", "+", ",", ".", "/", ":", "@", "\xff", "x"}))
+			}
+		case 1:
+			sb.WriteString("'")
+			body()
+			sb.WriteString("'")
+		case 2:
+			sb.WriteString("\"")
+			body()
+			sb.WriteString("\"")
+		default:
+			sb.WriteString("$'")
+			body()
+			sb.WriteString("'")
+		}
+	}
+	return strings.ReplaceAll(sb.String(), "\x00", "")
+}
+
+type uobs struct {
+	Q    string   `json:"uq"`   // hex of the quoted text
+	G    []string `json:"g"`    // per variant: "W:<hex>" (one inert word, expand.Literal) | "N"
+	Bash string   `json:"bash"` // "W:<hex>" | "?" (not run / no clean output)
+	Dash string   `json:"dash"`
+}
+
+func goWord(q string, li int) string {
+	if strings.HasSuffix(q, "\\") {
+		return "N" // would continue onto the next script line
+	}
+	var f *syntax.File
+	var err error
+	if p, _ := hx.Try(func() {
+		f, err = syntax.NewParser(syntax.Variant(langs[li])).Parse(strings.NewReader(": "+q+"\n"), "")
+	}); p || err != nil || len(f.Stmts) != 1 {
+		return "N"
+	}
+	st := f.Stmts[0]
+	ce, ok := st.Cmd.(*syntax.CallExpr)
+	if !ok || len(ce.Assigns) != 0 || len(st.Redirs) != 0 || st.Negated || st.Background || st.Coprocess || len(st.Comments) != 0 ||
+		len(f.Last) != 0 || len(ce.Args) != 2 || !inertWord(ce.Args[1]) {
+		return "N"
+	}
+	var lit string
+	if p, _ := hx.Try(func() { lit, err = expand.Literal(nil, ce.Args[1]) }); p || err != nil {
+		return "N"
+	}
+	return "W:" + hx.Hex(lit)
+}
+
+// shellWords runs `printf '[%s]\0' <q>` for every q (batches; a batch with unexpected framing is re-run line by line).
+func shellWords(shell string, args []string, qs []string, dir string) []string {
+	res := make([]string, len(qs))
+	run := func(lines []string) [][]byte {
+		var sb bytes.Buffer
+		for _, q := range lines {
+			sb.WriteString("printf '[%s]\\0' " + q + "\nprintf '\\0'\n")
+		}
+		script := filepath.Join(dir, "u.sh")
+		os.WriteFile(script, sb.Bytes(), 0o600)
+		ctx, cancel := context.WithTimeout(context.Background(), 60*time.Second)
+		defer cancel()
+		cmd := exec.CommandContext(ctx, shell, append(append([]string{}, args...), script)...)
+		cmd.Env = []string{"LC_ALL=C.UTF-8", "PATH=/nonexistent-c13"}
+		cmd.Dir = dir
+		out, _ := cmd.Output()
+		ch := bytes.Split(out, []byte("\x00\x00"))
+		return ch[:len(ch)-1]
+	}
+	one := func(ch []byte) string {
+		if len(ch) >= 2 && ch[0] == '[' && ch[len(ch)-1] == ']' && !bytes.Contains(ch, []byte{0}) {
+			return "W:" + hx.Hex(string(ch[1:len(ch)-1]))
+		}
+		return "?"
+	}
+	for start := 0; start < len(qs); start += 200 {
+		end := min(start+200, len(qs))
+		ch := run(qs[start:end])
+		if len(ch) == end-start {
+			for i := range ch {
+				res[start+i] = one(ch[i])
+			}
+			continue
+		}
+		for i := start; i < end; i++ {
+			c1 := run(qs[i : i+1])
+			if len(c1) == 1 {
+				res[i] = one(c1[0])
+			} else {
+				res[i] = "?"
+			}
+		}
+	}
+	return res
+}
+
+func unqAll(qs []string) {
+	dir, err := os.MkdirTemp("", "c13u-*")
+	if err != nil {
+		panic(err)
+	}
+	defer os.RemoveAll(dir)
+	all := make([]uobs, len(qs))
+	var bq, dq []string
+	var bi, di []int
+	for i, q := range qs {
+		o := uobs{Q: hx.Hex(q), G: make([]string, len(langs)), Bash: "?", Dash: "?"}
+		for li := range langs {
+			o.G[li] = goWord(q, li)
+			if !utf8.ValidString(q) || syntax.IsKeyword(q) {
+				// the Go lexer refuses invalid UTF-8 outright, and a whole unquoted reserved word (zsh: `}`) is
+				// C13_keyword_or_meta's business: neither is comparable with the byte-level word model
+				o.G[li] = "?"
+			}
+		}
+		// only texts the Go parser sees as one inert word reach a real shell
+		if strings.HasPrefix(o.G[0], "W") {
+			bq, bi = append(bq, q), append(bi, i)
+		}
+		if strings.HasPrefix(o.G[1], "W") {
+			dq, di = append(dq, q), append(di, i)
+		}
+		all[i] = o
+	}
+	for k, r := range shellWords("/usr/bin/bash", []string{"--norc", "--noprofile"}, bq, dir) {
+		all[bi[k]].Bash = r
+	}
+	for k, r := range shellWords("/usr/bin/dash", nil, dq, dir) {
+		all[di[k]].Dash = r
+	}
+	for _, o := range all {
+		hx.Emit(o)
+	}
+}
+
 func main() {
 	o := hx.ParseArgs()
 	defer hx.Flush()
@@ -408,6 +583,18 @@ func main() {
 			strs = append(strs, genString(r))
 		}
 		observeAll(strs)
+	case "unq":
+		r := hx.Rand(o.Seed, 1313)
+		seen := map[string]bool{}
+		var qs []string
+		for i := 0; i < o.N; i++ {
+			q := genQuoted(r)
+			if q != "" && !seen[q] && !strings.Contains(q, "\x00") {
+				seen[q] = true
+				qs = append(qs, q)
+			}
+		}
+		unqAll(qs)
 	case "one":
 		f, err := os.Open(o.In)
 		if err != nil {
